@@ -203,7 +203,12 @@ def h_history(X, steps, kinds):
     trace = []
     X.check(f.modified() is False and f.live is True, "C40/fixture", "fresh fixture is modified / not live")
     for step in range(steps):
-        op = X.choose("op", ["backup", "revert", "set f1 original", "set f1 other", "set f2 original", "set f2 other", "copy, edit copy (f1)", "copy, edit original (f2)"])
+        try:
+            op = X.choose("op", ["backup", "revert", "set f1 original", "set f1 other", "set f2 original", "set f2 other", "copy, edit copy (f1)", "copy, edit original (f2)"])
+        except KeyError:
+            if X.symbolic:
+                raise
+            break  # concrete replay of a counterexample recorded with a shorter history bound (other tier)
         trace.append(op)
         where = f"{kind} flow, fields {[p[0] for p in pair]}, history {trace}"
         if op == "backup":
